@@ -34,6 +34,10 @@ FLAVORS = {
     # production defines (NDEBUG) + sanitizers; -O1 keeps ASan runs fast
     "asan": ["-O1", "-g1", "-fsanitize=address,undefined",
              "-fno-sanitize-recover=undefined", "-fno-omit-frame-pointer"],
+    # the converter's CRTP bases cast `this` to the final class while it is still under
+    # construction (an idiom; UBSan's vptr check objects to it): not what any property is about
+    "asan-novptr": ["-O1", "-g1", "-fsanitize=address,undefined", "-fno-sanitize=vptr",
+                    "-fno-sanitize-recover=undefined", "-fno-omit-frame-pointer"],
     "plain": ["-O1"],
     "o0": ["-O0"],
 }
